@@ -147,8 +147,27 @@ func H_C06_divpat() {
 	}
 	u := vNat("u", m, true)
 	U, V := sFromWords(u), sFromWords(v)
+	// receiver classes: 0 fresh; 1 quotient receiver == divisor, 2 == dividend, 3 remainder receiver ==
+	// divisor, 4 == dividend (each with spare capacity, so that make() reuses the operand's array)
+	var z, z2 dec
+	if a := vCfgOr("alias", 0); a != 0 {
+		bu, bv := make(dec, m, m+n+3), make(dec, n, m+n+3)
+		copy(bu, u)
+		copy(bv, v)
+		u, v = bu, bv
+		switch a {
+		case 1:
+			z = v
+		case 2:
+			z = u
+		case 3:
+			z2 = v
+		case 4:
+			z2 = u
+		}
+	}
 	var q, r dec
-	k := vCatch(func() { q, r = q.div(nil, u, v) })
+	k := vCatch(func() { q, r = z.div(z2, u, v) })
 	vAssert("C04.nopanic", k == 0)
 	if k != 0 {
 		return
